@@ -218,6 +218,17 @@ def stream_defect(e, has_bom, text):
     return False
 
 
+def stream_defect_bytes(e, has_bom, payload):
+    """the same classes on the bytes the detector actually sees (the text may be ill-formed further on)"""
+    if has_bom:
+        return e == "utf16le" and payload[:2] == [0, 0]
+    if e == "utf8":
+        return 0 in payload[1:]
+    if e in ("utf16le", "utf16be"):
+        return payload[2:4] == [0, 0]
+    return False
+
+
 def judge_esr(case, impl_out, meta=None):
     """does the implementation's answer satisfy C13 as stated?  (FAIL / HOLD / UNKNOWN, why)
     meta = (encoding, has_bom) when the generator knows how the stream was made"""
@@ -238,6 +249,8 @@ def judge_esr(case, impl_out, meta=None):
     e, has_bom, payload = classify_stream(data)
     if meta is not None:
         e, has_bom = meta
+        if has_bom and data[:len(BOM[e])] != BOM[e]:
+            return "UNKNOWN", "the stream was cut inside its BOM / something was inserted before it"
         payload = data[len(BOM[e]):] if has_bom else data
     if e is None:
         return "UNKNOWN", "no BOM and the generator did not say which scheme was meant"
@@ -248,7 +261,7 @@ def judge_esr(case, impl_out, meta=None):
     detectable = has_bom or (cps[:1] and 0 < cps[0] < 128)
     if not detectable:
         return "UNKNOWN", "BOM-less text that does not start with an ASCII character: outside the property"
-    if stream_defect(e, has_bom, cps if whole_text else cps):
+    if stream_defect_bytes(e, has_bom, payload):
         return "UNKNOWN", "inside a listed detection defect class (known finding)"
     if ty != e and (whole_text or used > 0 or has_bom):
         if not has_bom and not whole_text and used == 0:
